@@ -85,6 +85,8 @@ pub struct LsOutcome {
     pub final_ccr: u8,
     pub final_pc: u32,
     pub msgs: Vec<String>,
+    /// reference events (console output) of all executed steps, in order
+    pub events: Vec<rx::Event>,
     /// final reference memory overlay (addr -> byte) for checks that want to inspect it
     pub overlay: HashMap<u32, u8>,
 }
@@ -134,6 +136,7 @@ pub fn lockstep(emu: &mut Emu, prog: &Prog, opts: &LsOpts, ctl: &mut dyn FnMut(&
         final_ccr: prog.ccr,
         final_pc: prog.pc,
         msgs: vec![],
+        events: vec![],
         overlay: HashMap::new(),
     };
     let mut last: Option<Step> = None;
@@ -300,6 +303,7 @@ pub fn lockstep(emu: &mut Emu, prog: &Prog, opts: &LsOpts, ctl: &mut dyn FnMut(&
         }
         match (&step.outcome, &res) {
             (Outcome::Ok, EmuResult::Ok(n)) => {
+                out.events.extend(step.events.iter().cloned());
                 out.charges.push(*n);
                 last_states = *n;
             }
